@@ -44,18 +44,22 @@ type Run struct {
 	start time.Time
 	mu    sync.Mutex
 	// coverage
-	Evaluations int64
-	nontrivial  map[string]struct{}
-	Rule        string
-	samples     []interface{}
-	counters    map[string]int64
-	extra       map[string]interface{}
-	assumptions []string
-	violations  []Violation
-	knownSeen   map[string]int
-	inconcl     []string
-	findings    map[string]string // sig -> text for this property
-	maxSamples  int
+	// ExtraEvaluations / ExtraNontrivial are added to the totals: counts measured by an earlier engine of the same
+	// check whose evidence was merged into this run (the breakdown is kept under coverage.earlier_engine)
+	ExtraEvaluations int64
+	ExtraNontrivial  int64
+	Evaluations      int64
+	nontrivial       map[string]struct{}
+	Rule             string
+	samples          []interface{}
+	counters         map[string]int64
+	extra            map[string]interface{}
+	assumptions      []string
+	violations       []Violation
+	knownSeen        map[string]int
+	inconcl          []string
+	findings         map[string]string // sig -> text for this property
+	maxSamples       int
 }
 
 // Flags are the common engine flags.
@@ -333,7 +337,7 @@ func (r *Run) Finish(minNontrivial int) int {
 	_ = os.MkdirAll(filepath.Join(outDir, "evidence"), 0755)
 	_ = os.MkdirAll(filepath.Join(outDir, "replay"), 0755)
 
-	if len(r.nontrivial) < minNontrivial {
+	if int64(len(r.nontrivial))+r.ExtraNontrivial < int64(minNontrivial) {
 		r.inconcl = append(r.inconcl, fmt.Sprintf("only %d distinct non-trivial cases observed (floor %d)",
 			len(r.nontrivial), minNontrivial))
 	}
@@ -363,8 +367,8 @@ func (r *Run) Finish(minNontrivial int) int {
 		fmt.Printf("  sig=%s case=%s: %s\n", v.Sig, v.Case, v.Msg)
 	}
 	cov := map[string]interface{}{
-		"evaluations":         r.Evaluations,
-		"distinct_nontrivial": len(r.nontrivial),
+		"evaluations":         r.Evaluations + r.ExtraEvaluations,
+		"distinct_nontrivial": int64(len(r.nontrivial)) + r.ExtraNontrivial,
 		"rule":                r.Rule,
 		"samples":             r.samples,
 		"counters":            r.counters,
